@@ -36,11 +36,21 @@ pub struct ScriptBody {
     /// number of `poll_frame` calls made after `Ready(None)` was returned
     pub after_end: Arc<Mutex<usize>>,
     ended: bool,
+    /// the optional `http_body::Body` hints this body gives (taken from `BODY_HINTS` when it is built):
+    /// bit 0 = `size_hint()` is exact (the data bytes still to come - trailers do not count, as for
+    /// `Full` / `Empty` with `with_trailers`), bit 1 = `is_end_stream()` is true once nothing is left
+    hints: u8,
+}
+
+thread_local! {
+    /// hints for the scripted bodies built on this thread (set by the `resph` / `clh` case kinds; seed C16e:
+    /// a body with an exact size of 0 and trailers still to come must not be taken for an empty body)
+    pub static BODY_HINTS: std::cell::Cell<u8> = const { std::cell::Cell::new(0) };
 }
 
 impl ScriptBody {
     pub fn new(evs: Vec<Ev>) -> Self {
-        ScriptBody { evs: evs.into(), after_end: Arc::new(Mutex::new(0)), ended: false }
+        ScriptBody { evs: evs.into(), after_end: Arc::new(Mutex::new(0)), ended: false, hints: BODY_HINTS.with(|h| h.get()) }
     }
 }
 
@@ -79,6 +89,17 @@ impl Body for ScriptBody {
                 cx.waker().wake_by_ref();
                 Poll::Pending
             }
+        }
+    }
+    fn is_end_stream(&self) -> bool {
+        self.hints & 2 != 0 && (self.ended || self.evs.is_empty())
+    }
+    fn size_hint(&self) -> http_body::SizeHint {
+        if self.hints & 1 != 0 {
+            let n: usize = self.evs.iter().map(|e| if let Ev::Data(b) = e { b.len() } else { 0 }).sum();
+            http_body::SizeHint::with_exact(n as u64)
+        } else {
+            http_body::SizeHint::default()
         }
     }
 }
@@ -367,6 +388,15 @@ pub const REQ_EXTRA: [(&str, &str); 5] = [("content-length", "123"), ("te", "gzi
 pub fn execute(case: &str) -> String {
     let t: Vec<&str> = case.split(' ').filter(|s| !s.is_empty()).collect();
     match t.as_slice() {
+        // resph <hints> <acc> <evs..>: `resp` with an inner response body that gives size / end-of-stream hints
+        ["resph", h, rest @ ..] => {
+            let hints: u8 = h.parse().unwrap_or(0);
+            BODY_HINTS.with(|c| c.set(hints));
+            let line = format!("resp {}", rest.join(" "));
+            let out = execute(&line);
+            BODY_HINTS.with(|c| c.set(0));
+            out
+        }
         ["resp", acc, evs @ ..] => {
             let (Some(acc), Some(evs)) = (opt_hv(acc), parse_evs(evs)) else { return "bad-case".into() };
             let mut headers = vec![(b"content-type".to_vec(), b"application/grpc-web".to_vec())];
@@ -1132,5 +1162,25 @@ pub fn generate(tier: &str, rng: &mut Rng) -> Vec<String> {
         let ct = if rng.chance(4, 5) { *rng.pick(&WEB_CTS[2..]) } else { *rng.pick(&WEB_CTS[..2]) };
         out.push(req_case(ct, &evs));
     }
+    // inner response bodies that give `http_body` hints (seed C16e: `Body::new` took a body with an exact size
+    // of 0 - no data, trailers still to come, as `Empty`/`Full` `with_trailers` report - for an empty body):
+    // every trailers-only / no-data response of the corpus, and a quarter of all other `resp` cases, again
+    // with an exact size hint, an end-of-stream hint, and both
+    let mut hinted = Vec::new();
+    for l in &out {
+        if let Some(rest) = l.strip_prefix("resp ") {
+            let no_data = !rest.split(' ').any(|t| t.starts_with('d'));
+            if no_data || rng.chance(1, 4) {
+                let h = if no_data { 1 + rng.below(3) } else { 1 + rng.below(3) };
+                hinted.push(format!("resph {} {}", h, rest));
+                if no_data {
+                    hinted.push(format!("resph 1 {}", rest));
+                }
+            }
+        }
+    }
+    hinted.sort();
+    hinted.dedup();
+    out.extend(hinted);
     out
 }
